@@ -4,9 +4,9 @@ import Cfdm.Lemmas.ConstructsView
 import Cfdm.Lemmas.ConstructsInPlace
 /-
 C02 — the construct container keeps referential integrity over any history.
-Property theorems only.  Model: `Cfdm/Model/Constructs.lean` (`step` = the container as coded at
-/repo HEAD, where the five repairs fixes/C02-*.patch are applied as commits 0a6b21e, 05dfd6b,
-fba0f94, 7ccd512, 7a00732; `stepOld` = the container before those commits) and
+Property theorems only.  Model: `Cfdm/Model/Constructs.lean` (`step` = the container with the repairs
+fixes/C02-*.patch: commits 0a6b21e, 05dfd6b, fba0f94, 7ccd512, 7a00732 and
+C02-insert-dimension-skips-topology-constructs.patch; `stepOld` = the container before them) and
 `Cfdm/Model/ConstructsSeq.lean` (the bodies of the mutating methods as sequences of reads, guards and
 writes in the order of the code);
 specification: `Cfdm/Spec/Constructs.lean` (`Inv`).
@@ -17,15 +17,13 @@ specification: `Cfdm/Spec/Constructs.lean` (`Inv`).
   It is FALSE for cfdm at HEAD: `C02_axis_resize_breaks_inv`,
   `C02_dangling_cell_method_breaks_inv`, `C02_dangling_reference_breaks_inv`,
   `C02_replace_unchecked_breaks_inv` and `C02_direct_mutation_breaks_inv` below are accepted calls that
-  break `Inv` (open findings without a patch), `C02_inplace_insert_dimension_topology_breaks_inv` a rejected
-  one (open finding, patch proposed).  What is proved is the statement for every other argument choice (`Admissible`): every
+  break `Inv` (open findings without a patch).  What is proved is the statement for every other argument choice (`Admissible`): every
   operation of the model, with any arguments, except that for `set_construct` exactly those three classes
   are excluded (`SetOK`: domain axis resized while spanned; cell method / coordinate reference naming a
   missing construct) together with constructs that are inconsistent in themselves (which cfdm's own
   `set_bounds` refuses to build), for `constructs.replace` the caller must supply what the documented
-  absence of checks leaves to him (`ReplaceOK`), a mutator called directly on a contained construct
-  must keep it fitting its recorded axes (`MutOK`), and `insert_dimension(constructs=True, inplace=True)`
-  needs a field without topology data (`NoTopoData`).
+  absence of checks leaves to him (`ReplaceOK`), and a mutator called directly on a contained construct
+  must keep it fitting its recorded axes (`MutOK`).
 -/
 namespace Cfdm.Props.C02
 open Cfdm.Constructs
@@ -310,19 +308,20 @@ theorem C02_inplace_needs_inv :
 
 /-- **The in-place loops over the metadata constructs keep the invariant whatever the order** (and
 multiplicity) in which the constructs are visited - Python walks hash containers, the model a list -
-and wherever they stop: a failing step of `transpose(constructs=True, inplace=True)` leaves its construct
-untouched, the constructs before it transposed; the same for `insert_dimension(constructs=True,
-inplace=True)` provided no domain topology / cell connectivity construct has data. -/
+and wherever they stop: a failing step of `transpose(constructs=True, inplace=True)` or of
+`insert_dimension(constructs=True, inplace=True)` leaves its construct untouched, the constructs before it
+changed (the final `set_data_axes` of a step cannot be the statement that fails; dimension coordinates,
+domain topologies and cell connectivities are left as they are by `insert_dimension`). -/
 theorem C02_inplace_loops_any_order (s : St) (h : Inv s) (order : List (CType × Key)) :
     Inv (foldIP transOne transDamage s order) ∧
-    ∀ a, axSize s a = some (some 1) → NoTopoData s → ∀ position da0,
+    ∀ a, axSize s a = some (some 1) → ∀ position da0,
       Inv (foldIP (insOne true a position da0) (insDamage true a position da0) s order) :=
   ⟨(inv_iff_core _).mpr (transposeLoop_anyOrder ((inv_iff_core s).mp h) order),
-   fun a ha hn position da0 =>
-     (inv_iff_core _).mpr (insertLoop_anyOrder ⟨(inv_iff_core s).mp h, ha, hn⟩ position da0 order).core⟩
+   fun a ha position da0 =>
+     (inv_iff_core _).mpr (insertLoop_anyOrder ⟨(inv_iff_core s).mp h, ha⟩ position da0 order).core⟩
 
--- an in-place call with constructs=True on a field without topology data is admissible and keeps the invariant
-example : Admissible exField (.insdim none 0 true true) := fun _ => by decide
+-- an in-place call with constructs=True needs no admissibility condition and keeps the invariant
+example : Admissible exField (.insdim none 0 true true) := trivial
 example : Inv (step exField (.insdim none 0 true true)).1 := by decide
 
 /-- a field on a mesh: three cells, a domain topology (cells x nodes) and data on the cell axis -/
@@ -333,18 +332,18 @@ def exMesh : St :=
     caxes := [(⟨"domaintopology", 0⟩, [⟨"domainaxis", 0⟩])],
     data := some [3], dataAxes := some [⟨"domainaxis", 0⟩], fda := some [⟨"domainaxis", 0⟩] }
 
-/-- `NoTopoData` cannot be dropped (open finding, patch proposed): `insert_dimension(None, 0, constructs=True,
-inplace=True)` on a field with a domain topology reshapes the topology ((1, 3, 4)), its new axes are then
-refused - its shape is the first dimension alone - and the rejected call leaves it reshaped on its one old
-axis: shape (1,) on an axis of size 3.  With `inplace=False` the same call is merely rejected. -/
-theorem C02_inplace_insert_dimension_topology_breaks_inv :
+/-- Before fixes/C02-insert-dimension-skips-topology-constructs.patch: `insert_dimension(None, 0,
+constructs=True, inplace=True)` on a field with a domain topology reshapes the topology ((1, 3, 4)), its new
+axes are then refused - its shape is the first dimension alone - and the REJECTED call leaves it reshaped on
+its one old axis: shape (1,) on an axis of size 3; with `inplace=False` the call could never succeed on such
+a field.  With the patch the topology is left as it is: both calls are accepted and keep the invariant. -/
+theorem C02_old_insert_dimension_topology_counterexample :
     let op := Op.insdim none 0 true true
-    Inv exMesh ∧ (step exMesh op).2 = .rejected ∧ ¬ Inv (step exMesh op).1 ∧ ¬ Admissible exMesh op ∧
-      step exMesh (.insdim none 0 true false) = (exMesh, .rejected) := by
-  refine ⟨by decide, by decide, by decide, ?_, by decide⟩
-  intro h
-  have := h rfl (.top, ⟨"domaintopology", 0⟩) { data := some [3, 4] } (by decide) (Or.inl rfl)
-  revert this; decide
+    Inv exMesh ∧ (stepOld exMesh op).2 = .rejected ∧ ¬ Inv (stepOld exMesh op).1 ∧
+      (stepOld exMesh (.insdim none 0 true false)).2 = .rejected ∧
+      (step exMesh op).2.isOk = true ∧ Inv (step exMesh op).1 ∧
+      (step exMesh (.insdim none 0 true false)).2.isOk = true ∧ Inv (step exMesh (.insdim none 0 true false)).1 := by
+  decide
 
 /-! ### live views -/
 
